@@ -23,6 +23,10 @@ VALUE_FIELDS = {
     "EnumVariant": ["variant_idx", "payload"],
     "Struct": ["fields"],
 }
+# which user type a value belongs to is part of the value: variant #0 of one enum is not variant #0 of another
+# (`None == False`), and two structs with the same field list but different types differ. At least one of the
+# identity fields must be compared.
+IDENTITY_FIELDS = {"EnumVariant": ["runtime_type", "type_name"], "Struct": ["runtime_type", "type_name"]}
 
 
 def conjuncts(e):
@@ -103,6 +107,9 @@ def run(ctx, res):
             else:
                 bad = "arm body is not a conjunction of field equalities (found %s)" % c["k"]
         missing = [f for f in need if f not in compared]
+        ident = IDENTITY_FIELDS.get(v)
+        if ident and not any(f in compared for f in ident):
+            missing.append("one of " + "/".join(ident) + " (which user-defined type the value belongs to)")
         if bad:
             res.bad("FIELD-COVER", key + " # shape", "(%s, %s): %s" % (v, v, bad), "%s:%d" % (FILE, S.line(a)))
         elif missing:
